@@ -126,6 +126,10 @@ def gen_wide(rng, K, nlev, n_random, style, seed_rows=1):
                     if seen:
                         df.iloc[i, df.columns.get_loc(c)] = 0.0
                     seen = True
+    if K >= 2 and rng.uniform() < 0.3:
+        z = rng.normal(size=n)
+        z[rng.uniform(size=n) < 0.3] = np.nan
+        df['Z_unused'] = z
     ix = int(rng.integers(0, 5))
     if ix == 4 and style == 'surv_na':
         ix = 2      # statsmodels' predict cannot re-insert rows with missing predictors under repeated labels
@@ -491,7 +495,9 @@ def check_single_t(chk, drv, rng, tier):
 
 
 # ---------------------------------------------------------------------------------------------- long data
-def gen_long(rng, n, T, censor, with_na):
+def gen_long(rng, n, T, censor, with_na, shape='free'):
+    """shape: 'free'; 'divisible' = unequal follow-up, but the number of complete records is a multiple of the number
+    of people (and, when possible, of the number of time points too); 'balanced' = everybody followed to T"""
     ids = rng.choice(np.arange(1, 5 * n), size=n, replace=False)
     rows = []
     hz = rng.uniform(0.05, 0.35, size=(2, T))
@@ -506,10 +512,12 @@ def gen_long(rng, n, T, censor, with_na):
         for t in range(1, T + 1):
             p = min(0.9, max(0.01, hz[a, t - 1] * math.exp(bw * w) + 0.05 * b))
             y = 0 if keep else int(rng.uniform() < p)
+            if shape == 'balanced' and t < T:
+                y = 0
             rows.append({'id': int(i), 't': t, 'A': float(a), 'W': w, 'B': float(b), 'Y': float(y)})
             if y == 1:
                 break
-            if not keep and rng.uniform() < censor:
+            if not keep and shape != 'balanced' and rng.uniform() < censor:
                 break
     df = pd.DataFrame(rows)
     if with_na:
@@ -517,6 +525,21 @@ def gen_long(rng, n, T, censor, with_na):
         last = df.groupby('id')['t'].transform('max') == df['t']
         m = last & (rng.uniform(size=len(df)) < 0.15) & (df['t'] > 1) & ~df['id'].isin(ids[:2])
         df.loc[m, 'Y'] = np.nan
+    if shape == 'divisible':
+        # end the follow-up of some people one record earlier (drop-out) until records % people == 0 on the complete
+        # records, follow-up staying unequal
+        for _ in range(len(df)):
+            cc = df.dropna()
+            R, N = len(cc), cc['id'].nunique()
+            if R % N == 0:
+                break
+            size = cc.groupby('id').size()
+            cand = [i for i in size.index[size >= 2] if i not in (int(ids[0]), int(ids[1]))]
+            if not cand:
+                break
+            i = cand[int(rng.integers(0, len(cand)))]
+            tmax = cc.loc[cc['id'] == i, 't'].max()
+            df = df[~((df['id'] == i) & (df['t'] == tmax) & df['Y'].notna())].reset_index(drop=True)
     df = df.iloc[rng.permutation(len(df))]
     ix = int(rng.integers(0, 4))
     if ix == 0:
@@ -587,8 +610,17 @@ def check_long(chk, drv, rng, df, model, saturated, tag):
             else:
                 dev = float(np.abs(fm.model.exog.T @ (fm.model.endog - fm.fittedvalues.values)).max()) / 10.0
             chk.h_checked += 1
-            if dev <= H_TOL:
+            # the estimator fits the same model on the (id, time)-sorted records: the comparison at 1e-9 presumes the
+            # fit does not depend on the row order (it does under separation, where the MLE does not exist)
+            cs = cc.sort_values(['id', 't'])
+            fm2 = glm_binomial('Y ~ ' + model, cs)
+            odev = max(float(np.abs(np.asarray(fm2.predict(d1), dtype=float) - h1.reindex(cc.index).values).max()),
+                       float(np.abs(np.asarray(fm2.predict(d0), dtype=float) - h0.reindex(cc.index).values).max()))
+            chk.h_checked += 1
+            if dev <= H_TOL and odev <= 1e-10:
                 href = (h1.values, h0.values, dev)
+            elif dev <= H_TOL:
+                chk.discard('reference hazard fit depends on the row order beyond 1e-10 (separation; K not judged, D is)')
             else:
                 chk.discard('reference hazard fit off its cell means / score equations (or empty arm x time cell)')
         except Exception as e:
@@ -722,7 +754,8 @@ def run_ice_ops(frames, K, ops, upto=None):
     for i, op in enumerate(ops if upto is None else ops[:upto + 1]):
         try:
             if op['obj'] not in objs:
-                objs[op['obj']] = IterativeCondGFormula(frames[op['obj']], exposures=exps, outcomes=outs)
+                objs[op['obj']] = IterativeCondGFormula(frames[op['obj']], exps, outs) if op['obj'] % 2 else \
+                    IterativeCondGFormula(frames[op['obj']], exposures=exps, outcomes=outs)
             o = objs[op['obj']]
             if op['op'] == 'spec':
                 o.outcome_model(op['models'], print_results=False)
@@ -867,7 +900,8 @@ def run_sgf_ops(frames, ops, upto=None):
         rec = {'status': 'ok'}
         try:
             if op['obj'] not in objs:
-                objs[op['obj']] = SurvivalGFormula(frames[op['obj']], idvar='id', exposure='A', outcome='Y', time='t')
+                objs[op['obj']] = SurvivalGFormula(frames[op['obj']], 'id', 'A', 'Y', 't') if op['obj'] % 2 else \
+                    SurvivalGFormula(frames[op['obj']], idvar='id', exposure='A', outcome='Y', time='t')
             o = objs[op['obj']]
             if op['op'] == 'spec':
                 o.outcome_model(model=op['model'], print_results=False)
@@ -905,7 +939,8 @@ def run_sgf_ops(frames, ops, upto=None):
 def check_sgf_history(chk, drv, rng, length):
     nobj = 2
     T = int(rng.integers(2, 6))
-    frames = [gen_long(rng, int(rng.integers(40, 120)), T, censor=float(rng.choice([0.0, 0.15])), with_na=bool(j % 2))
+    frames = [gen_long(rng, int(rng.integers(40, 120)), T, censor=float(rng.choice([0.0, 0.15])), with_na=bool(j % 2),
+                       shape=('free', 'divisible', 'divisible', 'balanced')[int(rng.integers(0, 4))])
               for j in range(nobj)]
     names = sorted(SGF_MODELS)
     ops, last = [], {}
@@ -1054,8 +1089,13 @@ def run(chk, drv, rng, tier):
     # ---- SurvivalGFormula
     for rep in range(8 if quick else 150):
         T = int(rng.integers(2, 7))
-        df = gen_long(rng, int(rng.integers(40, 160)), T, censor=float(rng.choice([0.0, 0.1, 0.25])),
-                      with_na=rep % 2 == 1)
+        shape = ('divisible', 'free', 'divisible', 'balanced', 'free')[rep % 5]
+        n_people = int(rng.integers(40, 160)) if rep % 3 else int(rng.integers(4, 12))   # small cohorts too
+        df = gen_long(rng, n_people, T, censor=float(rng.choice([0.0, 0.1, 0.25])), with_na=rep % 2 == 1, shape=shape)
+        cc_ = df.dropna()
+        chk.count('long_shape_' + shape)
+        chk.count('long_records_multiple_of_people_with_unequal_follow_up',
+                  int(len(cc_) % cc_['id'].nunique() == 0 and cc_.groupby('id').size().nunique() > 1))
         check_long(chk, drv, rng, df, 'C(t)*A', True, 'saturated')
         check_long(chk, drv, rng, df, ('A + W + B + t', 'A*W + B + t + I(t**2)', 'A + C(t) + W')[rep % 3], False,
                    'unsaturated')
